@@ -363,3 +363,76 @@ pub fn span_at(files: &[SliceFile], path: &[Value]) -> Option<Span> {
         _ => None,
     }
 }
+
+// ---------------------------------------------------------------------------------------------------------------------
+// Doc comments of a file (for digests): per commented element its overview, tags and what every link is bound to.
+
+fn message_text(m: &Message) -> String {
+    m.value
+        .iter()
+        .map(|c| match c {
+            MessageComponent::Text(t) => t.clone(),
+            MessageComponent::Link(l) => match l.linked_entity() {
+                Ok(e) => format!("{{->{}}}", e.parser_scoped_identifier()),
+                Err(id) => format!("{{?{}}}", id.value),
+            },
+        })
+        .collect()
+}
+
+fn comment_json(id: String, c: &DocComment) -> Value {
+    json!({
+        "of": id,
+        "overview": c.overview.as_ref().map(message_text),
+        "params": c.params.iter().map(|p| json!([p.identifier.value, message_text(&p.message)])).collect::<Vec<_>>(),
+        "returns": c.returns.iter().map(|r| json!([r.identifier.as_ref().map(|i| i.value.clone()), message_text(&r.message)])).collect::<Vec<_>>(),
+        "see": c.see.iter().map(|s| match s.linked_entity() {
+            Ok(e) => format!("->{}", e.parser_scoped_identifier()),
+            Err(id) => format!("?{}", id.value),
+        }).collect::<Vec<_>>(),
+    })
+}
+
+#[derive(Default)]
+struct CommentCollector {
+    out: Vec<Value>,
+}
+impl CommentCollector {
+    fn add(&mut self, x: &dyn Commentable) {
+        if let Some(c) = x.comment() {
+            self.out.push(comment_json(x.parser_scoped_identifier(), c));
+        }
+    }
+}
+impl slicec::visitor::Visitor for CommentCollector {
+    fn visit_struct(&mut self, x: &Struct) {
+        self.add(x);
+    }
+    fn visit_interface(&mut self, x: &Interface) {
+        self.add(x);
+    }
+    fn visit_enum(&mut self, x: &Enum) {
+        self.add(x);
+    }
+    fn visit_operation(&mut self, x: &Operation) {
+        self.add(x);
+    }
+    fn visit_custom_type(&mut self, x: &CustomType) {
+        self.add(x);
+    }
+    fn visit_type_alias(&mut self, x: &TypeAlias) {
+        self.add(x);
+    }
+    fn visit_field(&mut self, x: &Field) {
+        self.add(x);
+    }
+    fn visit_enumerator(&mut self, x: &Enumerator) {
+        self.add(x);
+    }
+}
+
+pub fn comments(f: &SliceFile) -> Value {
+    let mut c = CommentCollector::default();
+    f.visit_with(&mut c);
+    Value::Array(c.out)
+}
